@@ -606,6 +606,18 @@ def exp_image(s, b, off):
             and b[foot + 26] == f32_byte(eb_fpr(s), 2) and b[foot + 27] == f32_byte(eb_fpr(s), 3))
 
 
+def cbloom_image(s, b, off):
+    """b[off:] starts with the documented export of the counting Bloom filter s: one little-endian uint32 per cell, then
+    the footer uint64 estimated_elements, uint64 elements_added, float false_positive_rate"""
+    n = len(s._bloom)
+    foot = off + 4 * n
+    return (all(le_bytes(b, off + 4 * c, 4) == s._bloom[c] for c in range(0, n))
+            and u64_at(b, foot, s._est_elements) and u64_at(b, foot + 8, s._els_added)
+            and f32_at(b, foot + 16) == f32(s._fpr)
+            and b[foot + 16] == f32_byte(s._fpr, 0) and b[foot + 17] == f32_byte(s._fpr, 1)
+            and b[foot + 18] == f32_byte(s._fpr, 2) and b[foot + 19] == f32_byte(s._fpr, 3))
+
+
 def i32_at(b, off):
     import struct
     return struct.unpack("<i", bytes(b[off:off + 4]))[0]
